@@ -101,11 +101,12 @@ def e_action(it, ctx, callee, args):
     can_spawn = z3.BoolVal(False)
     if sysm.child is not None:
         can_spawn = z3.Not(gget(it, G_SPAWNED))
+    acts = sysm.actions[me] if isinstance(sysm.actions, dict) else sysm.actions
     for a in (1, 2, 3):
-        if a in sysm.actions and ctx.branch(k == a):
+        if a in acts and ctx.branch(k == a):
             gset(it, (G_BUDGET, me), Int(b.t - 1, "u8"))
             return Int(a, "u8")
-    if 4 in sysm.actions and ctx.branch(z3.And(k == 4, can_spawn)):
+    if 4 in acts and ctx.branch(z3.And(k == 4, can_spawn)):
         gset(it, (G_BUDGET, me), Int(b.t - 1, "u8"))
         gset(it, (G_SPAWNED,), z3.BoolVal(True))
         return Int(4, "u8")
@@ -260,6 +261,8 @@ def load_progs():
 
 def run_config(progs, cfg, tmo, deadline, qjobs=3):
     T, child, budgets, actions, K = cfg["T"], cfg["child"], cfg["budgets"], cfg["actions"], cfg["K"]
+    if isinstance(actions, dict):
+        actions = {int(k): tuple(v) for k, v in actions.items()}
     t0 = time.time()
     sysm = build_system(progs, T, child, budgets, actions)
     sysm.build(deadline)
@@ -272,11 +275,13 @@ def run_config(progs, cfg, tmo, deadline, qjobs=3):
     res = {"cfg": cfg, "K": K, "nodes": nn, "edges": ne, "build_s": round(tb, 1), "encode_s": round(te, 1), "queries": {}}
     from ..mir import bmccheck as BC
     wit = [("witness-all-finish", U.all_done(K))]
-    if 3 in actions:
+    allacts = set(a for v in actions.values() for a in v) if isinstance(actions, dict) else set(actions)
+    actions_for_witness = allacts
+    if 3 in allacts:
         wit.append(("witness-operation-runs", U.fired(lambda e: "verif_operation_begin" in e.label and e.panic is None)))
-    if 1 in actions and 3 in actions:
+    if 1 in allacts and 3 in allacts:
         wit.append(("witness-safepoint_slow-blocks", U.fired(lambda e: "wait_in_safepoint" in B.node_name(e.src) and "Condvar::wait" in e.label)))
-    if 2 in actions and 3 in actions:
+    if 2 in allacts and 3 in allacts:
         wit.append(("witness-park_slow", U.fired(lambda e: "park_slow" in B.node_name(e.src) and e.panic is None)))
         wit.append(("witness-unpark-waits", U.fired(lambda e: "wait_in_unpark" in B.node_name(e.src) and "Condvar::wait" in e.label)))
     qs = BC.standard_queries(U, [], wit)
@@ -298,6 +303,8 @@ CONFIGS = {
         {"name": "poll+stw", "T": 2, "child": False, "budgets": [1, 1], "actions": (1, 3), "K": 52, "core": True},
         {"name": "native+stw", "T": 2, "child": False, "budgets": [1, 1], "actions": (2, 3), "K": 52, "core": True},
         {"name": "poll+native+stw", "T": 2, "child": False, "budgets": [1, 1], "actions": (1, 2, 3), "K": 52, "core": True},
+        {"name": "stw-twice+native", "T": 2, "child": False, "budgets": [2, 1], "actions": {0: (3,), 1: (2,)}, "K": 80},
+        {"name": "stw-twice+poll", "T": 2, "child": False, "budgets": [2, 1], "actions": {0: (3,), 1: (1,)}, "K": 80},
         {"name": "2thr-2actions", "T": 2, "child": False, "budgets": [2, 2], "actions": (1, 2, 3), "K": 85},
         {"name": "2thr+spawn", "T": 3, "child": True, "budgets": [1, 1, 1], "actions": ALL, "K": 75},
         {"name": "3thr-1action", "T": 3, "child": False, "budgets": [1, 1, 1], "actions": (1, 2, 3), "K": 75},
@@ -320,6 +327,9 @@ def main(tier):
     tmo = 1800 if tier == "quick" else 3000
     deadline = t0 + (2700 if tier == "quick" else 5400)
     cfgs = CONFIGS[tier]
+    only = os.environ.get("VERIF_C04_ONLY")        # development aid: run the configurations whose name contains this text
+    if only:
+        cfgs = [c for c in cfgs if only in c["name"]] or cfgs
     results = list(common.fork_map(_cfg_worker, [(progs, c, tmo, deadline) for c in cfgs], min(len(cfgs), 4)))
     if "inconclusive" in results[0]:
         raise Inconclusive(results[0]["inconclusive"])
